@@ -253,4 +253,22 @@ PROPS = {
             {"name": "window", "run": "TestNotifyWindow", "kind": "plain"},
         ],
     },
+    "C01": {
+        "pkg": "c01",
+        "rule": ("rapid state machine: per case a local device with 3 drawn feature types (all 30 usable types over a run), each as server (functions "
+                 "announced with drawn read/write flags, drawn preset data) and client on two entities, plus NodeManagement; 2 peers with identical "
+                 "numbering announcing a client and a server feature per type. Each step is one datagram: classifier in {read, reply, notify, write, call, "
+                 "result} x a function registered for the addressed feature type (NodeManagement: discovery, use case, destination list, the four "
+                 "subscription/binding calls) x ack x destination in {server, client, special, unknown feature, unknown entity} x destination device in "
+                 "{local, omitted, wrong} x any announced source feature (2/3 the counterpart). After each step the complete outbound trace of all peers is "
+                 "judged: addressing of every reply/result, count by classifier rule, fixed outcomes for reads (payload = DataCopy before), and "
+                 "consistency of acceptance (success/no result => effect visible, error => data, registries and event log unchanged). Non-trivial: every "
+                 "step (reaches ProcessCmd with a resolvable source). Distinct by (classifier, feature type, function, ack, destination class, role, outcome)."),
+        "assumptions": ["replies and results always carry a msgCounterReference and results a resultData.errorNumber (well-formedness; their absence is C05's subject)",
+                        "nodeManagementSubscriptionData / BindingData are outside the domain (not in the factory's list for NodeManagement)",
+                        "for a readable-typed but not announced function a reply with the stored data or an error result are both accepted"],
+        "runs": [
+            {"name": "responses", "run": "TestResponses", "kind": "rapid", "checks": {Q: 3200, T: 96000}, "shards": {Q: 4, T: 16}, "steps": {Q: 12, T: 20}},
+        ],
+    },
 }
